@@ -113,7 +113,7 @@ def el_flatnonzero(a):
     e.assume(z3.ForAll([k, b], z3.Implies(z3.And(0 <= k, k < b, b < m), f(k) < f(b)),
                        patterns=[z3.MultiPattern(f(k), f(b))]))
     mj = mask(j)
-    pats = _uf_apps_with(mj, j)[:1] or [rank(j)]
+    pats = _uf_apps_with(mj, j)[:1] + [rank(j)]           # alternative triggers: the mask's own term, or a mention of rank(j)
     e.assume(z3.ForAll([j], z3.Implies(z3.And(0 <= j, j < n, mj),
                                        z3.And(0 <= rank(j), rank(j) < m, f(rank(j)) == j)), patterns=pats))
     # (5) redundant segment form of (4) (follows from (2)-(4)); helps E-matching
@@ -122,7 +122,36 @@ def el_flatnonzero(a):
     e.assume(z3.ForAll([k, j], z3.Implies(z3.And(0 <= k, k <= m, lo(k) < j, j < hi(k), 0 <= j, j < n),
                                           z3.Not(mask(j)))))
     xo._ghost = dict(m=m, f=f, mask=mask, n=n, rank=rank)
+    xo._nonneg = True
     return xo
+
+
+def mask_positions(mask):
+    """flatnonzero(mask) shared by every use of the same mask VALUE on a path (a[mask], b[mask], sum(mask[:p]))"""
+    e = cur()
+    key = (id(mask), id(mask._at))
+    tab = e.memo.setdefault("mask_positions", {})
+    if key not in tab:
+        xo = el_flatnonzero(mask)
+        tab[key] = (mask, xo)          # keep the mask alive: ids must not be reused
+    return tab[key][1]
+
+
+def count_before(mask, p):
+    """number of True entries of a 1-d boolean array at positions < p, through the ghost enumeration of mask_positions:
+    c with 0 <= c <= m, xo[k] < p for k < c, and xo[c] >= p if c < m"""
+    e = cur()
+    xo = mask_positions(mask)
+    g = xo._ghost
+    f, m = g["f"], g["m"]
+    used("numpy.sum(mask[:p]) == number of listed True positions below p (ghost enumeration of the mask)")
+    c = z3.Int(e.fresh_name("cnt_lt"))
+    k = z3.Int("q_k")
+    tp = _t(p)
+    e.assume(z3.And(0 <= c, c <= m))
+    e.assume(z3.ForAll([k], z3.Implies(z3.And(0 <= k, k < c), f(k) < tp), patterns=[f(k)]))
+    e.assume(z3.Implies(c < m, f(c) >= tp))
+    return wrap(c)
 
 
 def el_unique(a, return_index=False, return_inverse=False, return_counts=False, axis=None, **kw):
@@ -340,6 +369,11 @@ def el_sum(a, axis=None, dtype=None, **kw):
     a = as_earr(a)
     if a.ndim != 1 or axis not in (None, 0, -1):
         raise Unsupported("sum over symbolic array of rank %d / axis %r in element mode" % (a.ndim, axis))
+    if a._es == z3.BoolSort():
+        vo = getattr(a, "_view_of", None)
+        if vo is not None and vo[0].ndim == 1 and not vo[1] and z3.is_int_value(vo[2].get(0)) and vo[2][0].as_long() == 0:
+            return count_before(vo[0], a._shape[0])          # sum(mask[:p])
+        return count_before(a, a._shape[0])
     e = cur()
     key, n, rec = _memo_by_term(e, "sums", a)
     if rec is None:
@@ -352,6 +386,28 @@ def el_sum(a, axis=None, dtype=None, **kw):
         e.assume(z3.ForAll([i], z3.Implies(z3.And(0 <= i, i < n), PS(i + 1) == PS(i) + at(i)), patterns=[PS(i + 1)]))
         rec = dict(PS=PS, n=n, arr=a)
         e.memo["sums"].append((key, n, rec))
+        K = z3.Int("q_mk")
+        x = z3.Int(e.fresh_name("ind_i"))
+        if not _mentions(key, K):
+            # constant array c: PS(i) == i*c  (induction: step proved here, closed form then assumed)
+            ok = e.prove("lemma:sum:constant-array:induction-step", z3.Implies(z3.And(0 <= x, x < n, PS(x) == _num(a, x) * key), PS(x + 1) == _num(a, x + 1) * key),
+                         kind="lemma")
+            if ok:
+                e.assume(z3.ForAll([i], z3.Implies(z3.And(0 <= i, i <= n), PS(i) == _num(a, i) * key), patterns=[PS(i)]))
+        upd = getattr(a, "_upd", None)
+        if upd is not None and upd[0] is not a._at:
+            # a is old with one entry replaced (a[ix] = v): PS(i) == PS_old(i) + If(ix < i, v - old[ix], 0)  (induction as above)
+            old_at, ix, v = upd
+            kold = z3.simplify(old_at(K))
+            prev = [r_ for k0, n0, r_ in e.memo["sums"] if k0.eq(kold) and n0.eq(n)]
+            if prev and z3.simplify(at(K)).eq(z3.simplify(z3.If(K == ix, _num(a, v), old_at(K)))):
+                PO = prev[0]["PS"]
+                dlt = _num(a, v) - old_at(ix)
+                shift = lambda t_: z3.If(ix < t_, dlt, zero)
+                ok = e.prove("lemma:sum:point-update:induction-step",
+                             z3.Implies(z3.And(0 <= x, x < n, PS(x) == PO(x) + shift(x)), PS(x + 1) == PO(x + 1) + shift(x + 1)), kind="lemma")
+                if ok:
+                    e.assume(z3.ForAll([i], z3.Implies(z3.And(0 <= i, i <= n), PS(i) == PO(i) + shift(i)), patterns=[PS(i)]))
     return wrap(rec["PS"](n))
 
 
@@ -375,6 +431,21 @@ def el_argsort(a, axis=-1):
         rec = dict(asc=asc, INV=INV, n=n, arr=a)
         e.memo["argsorts"].append((key, n, rec))
     return rec["asc"]
+
+
+def el_argmin(a, axis=None):
+    a = as_earr(a)
+    if a.ndim != 1 or axis not in (None, 0, -1):
+        raise Unsupported("argmin of rank %d" % a.ndim)
+    e = cur()
+    used("numpy.argmin (1-d, non-empty): an index of a minimal entry (the first one)")
+    n, at = _t(a._shape[0]), a._at
+    e.prove("callsite:argmin:%s:non-empty" % e.fresh_name("am"), n >= 1, kind="call-pre")
+    ix = z3.Int(e.fresh_name("argmin"))
+    j = z3.Int("q_j")
+    e.assume(z3.And(0 <= ix, ix < n))
+    e.assume(z3.ForAll([j], z3.Implies(z3.And(0 <= j, j < n), z3.And(at(ix) <= at(j), z3.Implies(j < ix, at(ix) < at(j))))))
+    return wrap(ix)
 
 
 def el_cumsum(a, axis=None):
@@ -469,6 +540,22 @@ def el_all(a, axis=None):
 
 def el_any(a, axis=None):
     a = as_earr(a)
+    if a.ndim == 2 and axis in (1, -1):
+        # row-wise any: ghost predicate ANY(i) with a witness column KW(i)
+        used("numpy.any(axis=1): ANY(i) <=> exists k: a[i,k] (ghost witness function)")
+        e = cur()
+        ANY = z3.Function(e.fresh_name("anyrow"), z3.IntSort(), z3.BoolSort())
+        KW = z3.Function(e.fresh_name("anycol"), z3.IntSort(), z3.IntSort())
+        i, k = z3.Ints("q_i q_k")
+        n1, n2, at = _t(a._shape[0]), _t(a._shape[1]), a._at
+        e.assume(z3.ForAll([i], z3.Implies(z3.And(0 <= i, i < n1, ANY(i)), z3.And(0 <= KW(i), KW(i) < n2, at(i, KW(i)))), patterns=[ANY(i)]))
+        body = at(i, k)
+        both = [t_ for t_ in _uf_apps_with(body, i) if any(c.eq(k) for c in t_.children())]
+        pats = both[:1] or [z3.MultiPattern(ANY(i), KW(k))]
+        e.assume(z3.ForAll([i, k], z3.Implies(z3.And(0 <= i, i < n1, 0 <= k, k < n2, body), ANY(i)), patterns=pats))
+        out = EArr((a._shape[0],), lambda r: ANY(r), bool)
+        out._any_ghost = dict(ANY=ANY, KW=KW)
+        return out
     if axis is not None or a.ndim != 1:
         raise Unsupported("any() with axis")
     used("numpy.any: existentially quantified disjunction")
@@ -499,7 +586,7 @@ EL_FUNCS = {
     "diff": el_diff,
     "unique": el_unique,
     "flatnonzero": el_flatnonzero, "stack": el_stack, "repeat": el_repeat, "copy": el_copy,
-    "clip": el_clip, "argsort": el_argsort, "cumsum": el_cumsum, "count_nonzero": el_count_nonzero, "reshape": lambda a, shape, **k: el_reshape(a, shape if isinstance(shape, (tuple, list)) else (shape,)),
+    "clip": el_clip, "argmin": el_argmin, "argsort": el_argsort, "cumsum": el_cumsum, "count_nonzero": el_count_nonzero, "reshape": lambda a, shape, **k: el_reshape(a, shape if isinstance(shape, (tuple, list)) else (shape,)),
     "where": el_where, "sum": el_sum, "all": el_all, "any": el_any,
     "empty_like": lambda a, dtype=None, **k: el_empty(a.shape, dtype or a.dtype),
     "zeros_like": lambda a, dtype=None, **k: el_zeros(a.shape, dtype or a.dtype),
